@@ -352,7 +352,7 @@ static U64Vec g_dom;
 static void ph_disk(void *u) {
     uint64_t idx = 0;
     for (size_t i = 0; i < g_dom.n; i++)
-        for (int k = 1; k <= (mc_thorough ? 7 : 5); k++)
+        for (int k = 1; k <= (mc_thorough ? 9 : 7); k++)
             for (int wd = 0; wd < 2; wd++, idx++) {
                 if (!mc_mine(idx)) continue;
                 if (mc_expired()) return;
@@ -364,8 +364,8 @@ static void ph_disk(void *u) {
 static void ph_disk_invalid(void *u) {
     U64Vec bad = {0};
     int d7[15] = {0}, dk[15] = {0};
-    for (int r = 1; r <= 15; r += (mc_thorough ? 1 : 3)) {
-        for (int pos = 0; pos < r; pos += (mc_thorough ? 1 : 2)) {
+    for (int r = 1; r <= 15; r += 1) {
+        for (int pos = 0; pos < r; pos += 1) {
             memset(d7, 0, sizeof d7);
             d7[pos] = 7;
             uv_push(&bad, spec_mk(r, 20, d7));   // digit 7 inside the resolution, hexagon base cell
@@ -410,7 +410,7 @@ static void ph_compact(void *u) {
     uint64_t idx = 0;
     for (size_t i = 0; i < g_dom.n; i++)
         for (int kind = 0; kind < 7; kind++)
-            for (int depth = 1; depth <= (mc_thorough ? 5 : 4); depth++, idx++) {
+            for (int depth = 1; depth <= (mc_thorough ? 6 : 5); depth++, idx++) {
                 if (!mc_mine(idx)) continue;
                 if (mc_expired()) return;
                 MC_RUN(OP_COMPACT, I(kind), H(g_dom.v[i]), I(depth));
@@ -421,7 +421,7 @@ static void ph_compact_multi(void *u) {
     uint64_t idx = 0;
     for (int kind = 7; kind <= 9; kind++)
         for (int ni = 0; ni < 11; ni++)
-            for (int depth = 1; depth <= (mc_thorough ? 3 : 2); depth++, idx++) {
+            for (int depth = 1; depth <= (mc_thorough ? 4 : 3); depth++, idx++) {
                 if (!mc_mine(idx)) continue;
                 if (mc_expired()) return;
                 MC_RUN(OP_COMPACT, I(kind), H((uint64_t)Ns[ni]), I(depth));
@@ -461,9 +461,9 @@ static void ph_poly(void *u) {
     static const uint32_t flagsE[] = {0, 1, 2, 3, 4, 0x10};
     uint64_t idx = 0;
     for (int ai = 0; ai < g_npa; ai++)
-        for (int si = 0; si < (mc_thorough ? 11 : 6); si++)
-            for (int sc = (mc_thorough ? 0 : 1); sc <= 2; sc++)
-                for (int ri = 0; ri < (mc_thorough ? 13 : 8); ri++)
+        for (int si = 0; si < 11; si++)
+            for (int sc = 0; sc <= 2; sc++)
+                for (int ri = 0; ri < 13; ri++)
                     for (int fn = 0; fn < 3; fn++)
                         for (int fi = 0; fi < (fn == 0 ? 1 : 6); fi++, idx++) {
                             if (!mc_mine(idx)) continue;
@@ -477,14 +477,14 @@ int main(int argc, char **argv) {
     poly_build_anchors();
     for (int an = 0; an < poly_nanchor && g_npa < 160; an++) {
         int k = poly_anchor_kind[an];
-        if (k == 1 || (k == 0 && an % (mc_thorough ? 3 : 6) == 0) || (k == 5 && an % 3 == 0) || (k == 2 && an % (mc_thorough ? 15 : 40) == 0) || ((k == 3 || k == 4 || k == 6) && an % (mc_thorough ? 2 : 5) == 0)) g_polyanchors[g_npa++] = an;
+        if (k == 1 || (k == 0 && an % (mc_thorough ? 2 : 3) == 0) || (k == 5 && an % 3 == 0) || (k == 2 && an % (mc_thorough ? 8 : 15) == 0) || ((k == 3 || k == 4 || k == 6) && an % (mc_thorough ? 1 : 2) == 0)) g_polyanchors[g_npa++] = an;
     }
     snprintf(mc_bounds, sizeof mc_bounds, "fault bound: every single index, every persistent-from index, every pair (n<=14); disks: CLOSE(pentagons,2)+hexagons at %s x k 1..%d x distances NULL/non-NULL; "
-             "areNeighborCells: CLOSE(pentagons,1) at %d resolutions x ball 2; compactCells: 7 kinds x depth 1..%d on 36 roots (12 base cells x res 0,5,10) + full/partial descendant sets of N in {1,2,5,6,7,8,12,20,49,121,122} base cells (3 selections) at res 1..2(3); polygons: %d shapes x %d anchors x %d scales x %d resolutions x (legacy, experimental x 6 flag values, size x 6) + 11 degenerate polygons (empty / 1- / 2-vertex outer loop, empty holes, holes with NaN / infinite vertexes, a hole 40x larger than or far outside the outer loop) x anchors x 6 resolutions; capacities {count-1, count/2, 1, 0} x 4 modes; "
+             "areNeighborCells: CLOSE(pentagons,1) at %d resolutions x ball 2; compactCells: 7 kinds x depth 1..%d on 36 roots (12 base cells x res 0,5,10) + full/partial descendant sets of N in {1,2,5,6,7,8,12,20,49,121,122} base cells (3 selections) at res 1..3(4); polygons: %d shapes x %d anchors x %d scales x %d resolutions x (legacy, experimental x 6 flag values, size x 6) + 11 degenerate polygons (empty / 1- / 2-vertex outer loop, empty holes, holes with NaN / infinite vertexes, a hole 40x larger than or far outside the outer loop) x anchors x 6 resolutions; capacities {count-1, count/2, 1, 0} x 4 modes; "
              "disks from invalid origins (digit 7 at every position, deleted sub-sequence, base cells 122/127, high bit, wrong mode, reserved bits) x k 0..3",
-             mc_thorough ? "all 16 resolutions" : "res {0,1,2,5,9,13,3,7,11,15}", mc_thorough ? 7 : 5, mc_thorough ? 16 : 8, mc_thorough ? 5 : 4, mc_thorough ? 11 : 6, g_npa, mc_thorough ? 3 : 2, mc_thorough ? 13 : 8);
+             "all 16 resolutions", mc_thorough ? 9 : 7, 16, mc_thorough ? 6 : 5, 11, g_npa, 3, 13);
     static const int dres[] = {0, 1, 2, 5, 9, 13, 3, 7, 11, 15, 4, 6, 8, 10, 12, 14};
-    for (int ri = 0; ri < (mc_thorough ? 16 : 10); ri++) {
+    for (int ri = 0; ri < 16; ri++) {
         U64Vec p = {0};
         dom_pent(dres[ri], 0, &p);
         dom_close1(&p);
@@ -497,7 +497,7 @@ int main(int argc, char **argv) {
     mc_phase("gridDisk / gridDiskDistances", ph_disk, NULL);
     mc_phase("gridDisk / gridDiskDistances from invalid origins", ph_disk_invalid, NULL);
     g_dom.n = 0;
-    for (int ri = 0; ri < (mc_thorough ? 16 : 8); ri++) {
+    for (int ri = 0; ri < 16; ri++) {
         U64Vec p = {0};
         dom_pent(dres[ri], 0, &p);
         dom_close1(&p);
